@@ -374,7 +374,103 @@ fn judge(ctx: &mut Ctx, index: u64, fault: Fault, r: &SessionResult, ends: &[usi
     }
 }
 
+/// Class "backlog at the failure": a stream that is BEHIND by its whole queue capacity (or one short of / one beyond it) when the transport
+/// fails must still hand out every message that was received before the failure, in order, and only then the error / the end.
+fn backlog_case(ctx: &mut Ctx, index: u64, rng: &mut Rng) {
+    use crate::props::c24::run_task;
+    ctx.count("evaluations", 1);
+    ctx.count("class:backlog-at-failure", 1);
+    let wire = Wire::new(rng.next_u64());
+    let mut sched = Sched::new(Rng::new(rng.next_u64()));
+    let bias = *rng.pick(&[(4u64, 3u64, 2u64), (6, 1, 6), (1, 6, 1), (2, 2, 6)]);
+    sched.w_ex = bias.0;
+    sched.w_h = bias.1;
+    sched.w_net = bias.2;
+    let conn = match connect_authenticated(&mut sched, &wire) {
+        Ok(c) => c,
+        Err(e) => {
+            ctx.finding(index, "harness-or-hang", "-", "connect", json!({"error": e}));
+            return;
+        }
+    };
+    let w2 = wire.clone();
+    sched.add_net(Box::new(move || w2.release_one()));
+    let cap = *rng.pick(&[1usize, 2, 3, 5, 8]);
+    let k = match rng.below(4) {
+        0 if cap > 1 => cap - 1,
+        1 => cap + 1,
+        _ => cap,
+    };
+    let c2 = conn.clone();
+    let stream = run_task(&mut sched, async move { MessageStream::for_match_rule("type='signal',interface='b.I'", &c2, Some(cap)).await });
+    let mut stream = match stream {
+        Some(Ok(s)) => s,
+        other => {
+            ctx.finding(index, "harness-or-hang", "-", "stream", json!({"result": format!("{:?}", other.map(|r| r.map(|_| ())))}));
+            return;
+        }
+    };
+    let mut bytes = Vec::new();
+    for j in 0..k {
+        bytes.extend_from_slice(&Msg::signal(100 + j as u32, "/b", "b.I", "S").with_sender(":1.9").with_body(vec![Val::U(j as u32)]).marshal());
+    }
+    let chunks: Vec<usize> = if rng.bool() { vec![] } else { vec![1 + rng.usize_below(40)] };
+    wire.stage(&bytes, vec![], &chunks);
+    // everything arrives and is queued behind the un-polled stream; then the transport fails
+    sched.run_to_quiescence();
+    let reset = rng.bool();
+    if reset {
+        wire.fail(Some(std::io::ErrorKind::ConnectionReset));
+    } else {
+        wire.set_eof();
+    }
+    sched.run_to_quiescence();
+    // only now does the consumer look
+    let out = run_task(&mut sched, async move {
+        let mut got: Vec<u32> = Vec::new();
+        let end;
+        loop {
+            match stream.next().await {
+                Some(Ok(m)) => got.push(m.body().deserialize::<u32>().unwrap_or(u32::MAX)),
+                Some(Err(e)) => {
+                    end = format!("error: {e}");
+                    break;
+                }
+                None => {
+                    end = "end".to_string();
+                    break;
+                }
+            }
+        }
+        (got, end)
+    });
+    ctx.distinct(sched.fingerprint() ^ fnv(&format!("backlog|{cap}|{k}|{reset}")));
+    let want: Vec<u32> = (0..k as u32).collect();
+    let relation = if k < cap { "one-short-of-full" } else if k == cap { "exactly-full" } else { "one-beyond-full" };
+    ctx.count(&format!("class:backlog-{relation}"), 1);
+    match out {
+        None => ctx.finding(index, "stream-did-not-end", "backlog", relation, json!({"capacity": cap, "queued": k, "reset": reset, "trace": sched.trace_string()})),
+        Some((got, end)) => {
+            if got != want {
+                ctx.finding(index, "received-messages-lost-at-failure", relation, if reset { "reset" } else { "eof" },
+                    json!({"capacity": cap, "sent_and_received_before_the_failure": want, "stream_yielded": got, "then": end}));
+            } else if index % 50 == 0 {
+                ctx.sample(json!({"backlog_case": {"capacity": cap, "queued": k, "failure": if reset { "reset" } else { "eof" }, "stream_yielded": got, "then": end}}));
+            }
+        }
+    }
+}
+
 pub fn run(ctx: &mut Ctx) {
+    let nb = ctx.budget(1400, 40_000);
+    for j in 0..nb {
+        let i = 7_000_000_000 + j;
+        if !ctx.want(i) {
+            continue;
+        }
+        let mut rng = ctx.rng(i);
+        ctx.guarded(i, "backlog-at-failure", || json!({}), |ctx| backlog_case(ctx, i, &mut rng));
+    }
     // dry run: learn the inbound stream length, item boundaries and the number of write calls
     let dry = session(Fault::None, 42);
     let b = dry.total_inbound;
